@@ -59,15 +59,17 @@ def one(pid, f):
 def main():
     ap = argparse.ArgumentParser()
     ap.add_argument("--only", default="")
+    ap.add_argument("--commits", default="", help="only these fix commits (comma separated), e.g. to retry one")
     ap.add_argument("--jobs", type=int, default=4)
     ap.add_argument("--out", default=os.path.join(ROOT, "seeded", "reverts.json"))
     a = ap.parse_args()
     kf = json.load(open(os.path.join(ROOT, "known_findings.json")))["findings"]
     only = set(x for x in a.only.split(",") if x)
+    commits = set(x for x in a.commits.split(",") if x)
     byp = {}
     seen = set()
     for f in kf:
-        if f.get("status") == "fixed" and f.get("commit") and (not only or f["property"] in only):
+        if f.get("status") == "fixed" and f.get("commit") and (not only or f["property"] in only) and (not commits or f["commit"] in commits):
             k = (f["property"], f["commit"])
             if k in seen:
                 continue
@@ -87,8 +89,10 @@ def main():
         for rs in ex.map(run_prop, sorted(byp)):
             results += rs
     old = []
-    if only and os.path.exists(a.out):
-        old = [r for r in json.load(open(a.out)).get("results", []) if r["property"] not in only]
+    if (only or commits) and os.path.exists(a.out):
+        new = set((r["property"], r["commit"]) for r in results)
+        old = [r for r in json.load(open(a.out)).get("results", []) if (r["property"], r["commit"]) not in new
+               and (commits or r["property"] not in only)]
     results = sorted(old + results, key=lambda r: (r["property"], r["commit"]))
     n = len(results)
     caught = sum(1 for r in results if r["result"] == "caught")
